@@ -184,23 +184,28 @@ def classify_growth(ctx, adt, m, fld, e, i, evs, facts, cf):
     # (d) documented exception
     if adt == "topk::lossycounter::LossyCounter" and fld == "known":
         return ("documented-exception(LossyCounter.known, pruned every window: R09-prune)", "")
-    # (a) capacity guard: a fact  size(container) < config  or  counter < config
+    # orderings established on the path, in both spellings: a < b  ==  !(b <= a),  a <= b  ==  !(b < a)
+    strict, weak = [], []
     for c, truth in facts:
-        if c[0] == "op" and c[1] == "Lt" and truth and len(c[2]) == 2:
+        if c[0] == "op" and c[1] in ("Lt", "Le") and len(c[2]) == 2:
             a, b = c[2]
-            if b[0] == "field" and b[1][:2] == ("param", 1) and b[2] in cf:
-                return ("guard %s" % fmt(c), "")
+            if c[1] == "Lt":
+                (strict if truth else weak).append((a, b) if truth else (b, a))
+            else:
+                (weak if truth else strict).append((a, b) if truth else (b, a))
+    # (a) capacity guard: a fact  size(container) < config  or  counter < config
+    for a, b in strict:
+        if b[0] == "field" and b[1][:2] == ("param", 1) and b[2] in cf:
+            return ("guard %s < %s" % (fmt(a), fmt(b)), "")
     # (b) paired with a removal from the same container on the same path
     for e2 in evs:
         if e2["kind"] == "write" and e2["root"] == SELF and self_field(e2) == fld and e2.get("name") in SHRINK:
             return ("paired with %s.%s on the same path" % (fld, e2.get("name")), "")
     # in-place update of an existing entry (re-keying): insert after remove handled above
     # (c) size check after the push that drains: on this path either len <= max fact, or a later drain of the same field
-    for c, truth in facts:
-        if c[0] == "op" and c[1] == "Lt" and not truth and len(c[2]) == 2:
-            a, b = c[2]
-            if a[0] == "field" and a[1][:2] == ("param", 1) and a[2] in cf and b[0] == "call" and b[1].endswith("len") and b[2] and b[2][0] == ("field", selfp, fld):
-                return ("size check %s <= %s after the push" % (fmt(b), fmt(a)), "")
+    for b, a in weak:      # len(container) <= config
+        if a[0] == "field" and a[1][:2] == ("param", 1) and a[2] in cf and b[0] == "call" and b[1].endswith("len") and b[2] and b[2][0] == ("field", selfp, fld):
+            return ("size check %s <= %s after the push" % (fmt(b), fmt(a)), "")
     for e2 in evs[i + 1:]:
         if e2["kind"] == "write" and e2["root"] == SELF and self_field(e2) == fld and e2.get("name") == "drain":
             return ("drained by merge() when the backlog exceeds its limit", "")
